@@ -198,7 +198,10 @@ def _get_frame_local_variables_data(frame, variables, exclude_variables):
         # keep the data clean.
         if variable.startswith('__'):
             continue
-        if variables and variable not in variables:
+        # ``variables`` is None when no include list was passed.  An include
+        # list that ended up empty (all the names in it were invalid) still is
+        # an include list: it retains nothing.
+        if variables is not None and variable not in variables:
             continue
         if exclude_variables and variable in exclude_variables:
             continue
@@ -835,9 +838,13 @@ def _validate_saveframe_arguments(
             f"Cannot pass both {'`variables`' if utility == 'function' else '--variables'} "
             f"and {'`exclude_variables`' if utility == 'function' else '--exclude_variables'} "
             f"{'parameters' if utility == 'function' else 'arguments'}.")
+    include_list_passed = bool(variables)
     variables = _validate_variables(variables, utility)
+    if not include_list_passed:
+        # None, '' and [] all mean that no include list was passed.
+        variables = None
     exclude_variables = _validate_variables(exclude_variables, utility)
-    if not (variables or exclude_variables):
+    if variables is None and not exclude_variables:
         _SAVEFRAME_LOGGER.info(
             "Neither %s nor %s %s is passed. All the local variables from the "
             "frames will be saved.",
